@@ -18,7 +18,7 @@ META = {
     "level": "fault_enumeration",
     "technique": "bounded exhaustive interrupt positions in the real sampler under the modelled environment",
     "explanation": "every owned call site x every call index within the bound",
-    "bounds": {"quick": {"chains": 2, "iterations": "2 warm-up + 2 main", "sites": ["transition", "trace", "adapter"], "n_process": [1, 2]},
+    "bounds": {"quick": {"chains": 2, "iterations": "2 warm-up + 2 main", "sites": ["transition", "trace", "adapter", "parent process (modelled-parallel runs)"], "n_process": [1, 2]},
                "thorough": {"iterations": "3 + 3", "stagers": ["warmup", "windowed"]}},
     "outside": "NOT APPLICABLE parts: flushing memory-maps to disk, real signal delivery to worker processes, interrupts inside "
                "NumPy/C code",
@@ -33,6 +33,9 @@ def case_interrupts(rec, n_warm, n_main, n_process, stager, twu=True):
     n_chain = 2
     full = SL.run(n_warm, n_main, n_chain=n_chain, n_process=n_process, trace_warm_up=twu, stager=stager, adapters="fast")
     total_calls = {"transition": n_chain * (n_warm + n_main), "trace": n_chain * ((n_warm if twu else 0) + n_main), "adapter": n_chain * n_warm}
+    if n_process != 1:
+        # the parent process itself is interrupted while it waits for the workers' progress messages
+        total_calls["parent"] = n_chain * (n_warm + n_main)
     viol = {}
     n = 0
     for site, tot in total_calls.items():
